@@ -24,6 +24,7 @@ R1.16 the overload signatures (parameters in document order) carry no default in
 R1.15 enum members of one class get pairwise distinct names (duplicate member = TypeError at import)            [= R20.2, enum members]
 R1.17 a schema object outside the registry (property stub) that is given a class name is given its module stem in the same place
 R1.18 imports executed when a shipped runtime module is imported (module level, not optional) are stdlib / httpx / cattrs / relative
+R1.19 the import of a referenced model is deferred when the reference closes a cycle between model modules            [finding on the pinned tree]
 R1.9  duplicate argument names cannot be emitted (operation-level override + de-dup)                     [= R4.4 / R20.2]
 """
 from __future__ import annotations
@@ -79,6 +80,7 @@ def run(repo: Repo, rep: Report, tier: str) -> None:
     rule_no_default_before_star(repo, rep, "R1.16")
     rule_no_value_return_in_stream(repo, rep, "R1.14")
     rule_named_stub_has_module(repo, rep, "R1.17")
+    rule_cyclic_model_imports(repo, rep, "R1.19")
     from rules.c12 import rule_import_time_imports
 
     rule_import_time_imports(repo, rep, "R1.18")
@@ -1053,3 +1055,42 @@ def rule_named_stub_has_module(repo: Repo, rep, rule: str = "R1.17") -> None:
             rep.ok(rule, f"{mod.relpath} schemas named outside the registry", f"{n} site(s): each sets generation_name together with final_module_stem", f"{mod.relpath}:1")
     rep.count(f"{rule}:naming_sites_outside_registry", n_sites)
     rep.require(n_sites >= 4, f"{rule}: only {n_sites} naming sites of non-registry schemas found in loader/parsing/helpers (floor 4)")
+
+
+# ------------------------------------------------------------------------------------------------ R1.19 model modules of a reference cycle do not import each other at module level
+_CYCLE_MARKS = {"_is_circular_ref", "_circular_ref_path", "_is_self_referential_stub", "detected_cycles", "cycle_detected"}
+
+
+def rule_cyclic_model_imports(repo: Repo, rep, rule: str = "R1.19") -> None:
+    """Each model lives in its own module and a field of type `B` makes `a.py` import `b.py` (`from .b import B`) at module level.  Schemas
+    that reference each other (User <-> Group, A -> B -> C -> A) then produce modules that import each other while they are still being
+    executed: `ImportError: cannot import name 'A' from partially initialized module`.  The parser knows the closing edge of every such
+    cycle (it stores a placeholder marked `_is_circular_ref`); the code that registers the import of a referenced model must treat such a
+    reference differently (deferred / conditional import plus forward reference).  Decided here: on some path to a model-import
+    registration of the resolver a cycle mark is consulted, or a deferred-import API is used for models at all."""
+    sr = repo.module("types.resolvers.schema_resolver")
+    fn = sr.classes["OpenAPISchemaResolver"].methods.get("_resolve_named_schema") if "OpenAPISchemaResolver" in sr.classes else None
+    if fn is None:
+        raise AnalysisError(f"{rule}: anchor vanished: OpenAPISchemaResolver._resolve_named_schema")
+    regs = [c for c in calls_in(fn.node) if isinstance(c.func, ast.Attribute) and c.func.attr == "add_import" and len(c.args) >= 2]
+    rep.require(len(regs) >= 1, f"{rule}: the import registration of a referenced model (`context.add_import(<module>, <class>)`) was not found in _resolve_named_schema (anchor)")
+    if not regs:
+        return
+    # cycle awareness anywhere in the resolver / the model visitor / the models emitter (the places that could defer an import)
+    scope = [m for n, m in repo.modules.items() if any(k in n for k in (".types.resolvers.", ".types.services.", ".visit.model.", ".emitters.models_emitter", ".context.render_context"))]
+    reads = [(m, x) for m in scope for x in ast.walk(m.tree) if isinstance(x, ast.Attribute) and x.attr in _CYCLE_MARKS and isinstance(x.ctx, ast.Load)]
+    reads += [(m, c) for m in scope for c in ast.walk(m.tree) if isinstance(c, ast.Call) and dotted(c.func) in ("getattr", "hasattr") and len(c.args) >= 2 and const_str(c.args[1]) in _CYCLE_MARKS]
+    deferred = [(m, c) for m in scope for c in ast.walk(m.tree) if isinstance(c, ast.Call) and isinstance(c.func, ast.Attribute)
+                and c.func.attr in ("add_conditional_import", "add_late_import", "add_deferred_import") and m is not repo.modules.get("pyopenapi_gen.types.services.type_service")
+                and not m.name.endswith("render_context")]
+    rep.count(f"{rule}:cycle_mark_reads_in_render_layer", len(reads))
+    rep.count(f"{rule}:deferred_import_uses", len(deferred))
+    sub = f"{sr.relpath}:_resolve_named_schema import of a referenced model inside a reference cycle"
+    if reads or deferred:
+        where = reads[0] if reads else deferred[0]
+        rep.ok(rule, sub, f"references that close a cycle are told apart ({where[0].relpath}:{where[1].lineno})", fn.loc(regs[0]))
+    else:
+        rep.violation(rule, sub, f"{fn.fq}|module-level-import-inside-reference-cycle",
+                      f"`{norm(regs[0])[:60]}` is the only way a referenced model is imported and nothing in the resolver, the model visitor or the models emitter looks at the "
+                      "parser's cycle marks: for schemas that reference each other (A.b -> B, B.a -> A) `a.py` and `b.py` import each other at module level and the models package "
+                      "cannot be imported (ImportError: partially initialized module)", fn.loc(regs[0]))
